@@ -28,6 +28,7 @@ that region is a violation.
 """
 import ast
 import atexit
+import gc
 import hashlib
 import json
 import os
@@ -330,7 +331,7 @@ def forked_map(fn, items, workers):
     return out
 
 
-def writer(requests, o, cache_dir, phase=None, announce_fd=None):
+def writer(requests, o, cache_dir, phase=None, announce_fd=None, clean_exit=False):
     """Body of a populating process: compile every request into the cache
     directory.  [phase]: kill yourself just before / just after the store."""
     orig = diskcache.Cache.__setitem__
@@ -348,6 +349,11 @@ def writer(requests, o, cache_dir, phase=None, announce_fd=None):
     for paths in requests:
         r = _attempt(asn1tools.compile_files, paths, o['codec'], o['adbc'], o['enc'], cache_dir, o['ne'])
         done += r[0] == 'ok'
+        del r
+    if clean_exit:
+        # what a normal interpreter exit does: the connection is closed and SQLite checkpoints the
+        # write-ahead log into cache.db (a forked child leaves through os._exit, which would not)
+        gc.collect()
     return done
 
 
@@ -490,7 +496,7 @@ def gen_history(rng, nops):
         pool.append(dict(o0, codec=rng.choice(['b', 'BER', '', 'bér', 'u'])))
     if rng.random() < .1:
         pool.append(dict(o0, enc='no-such-encoding'))
-    groups = [[0, 1], [2], [3, 4, 5], [0, 1, 2], [1, 0]]
+    groups = [[0, 1], [2], [3, 4, 5], [1, 0]]
     ops = []
 
     def arrange(names, doc, anywhere):
@@ -507,7 +513,7 @@ def gen_history(rng, nops):
     used = []
 
     def pick_group():
-        return rng.choice(groups[:4]) if rng.random() < .93 else groups[4]
+        return rng.choice(groups[:3]) if rng.random() < .93 else groups[3]
 
     while len(ops) < nops:
         r = rng.random()
@@ -917,7 +923,7 @@ def corruption_runs(ctx, ntemplates, per_template, findings):
         docs = [big_doc(rng, 0), big_doc(rng, 2), big_doc(rng, 100 if ti % 2 == 0 else 1)]
         reqs = [write_files(td, [dc], 'd%d_' % j) for j, dc in enumerate(docs)]
         tpl = os.path.join(td, 'cache')
-        st = forked(writer, reqs, o, tpl)
+        st = forked(writer, reqs, o, tpl, None, None, ti % 2 == 0)
         if st != ('ok', len(reqs)):
             raise RuntimeError('populating child failed: %r' % (st,))
         for dc in docs:
@@ -978,26 +984,35 @@ def pickle_witness(w):
     o = dict(codec=w['codec'], ne=False, adbc=None, enc='utf-8')
     reqs = [write_files(d, [doc])]
     cache = os.path.join(d, 'cache')
-    forked(writer, reqs, o, cache)
-    target = None
-    for rel, _ in list_cache_files(cache):
-        with open(os.path.join(cache, rel), 'rb') as f:
-            data = f.read()
-        if (rel.endswith('.val')) == bool(w['value_file']) and rel != 'cache.db-shm':
-            i = data.rfind(bytes.fromhex(w['find'])) if w.get('occurrence') == 'last' else data.find(bytes.fromhex(w['find']))
-            if i >= 0:
-                target = (rel, data, i)
-                break
-    if target is None:
-        shutil.rmtree(d, True)
-        return None, None, 'marker not found in the stored value'
-    rel, data, i = target
-    apply_mutation(os.path.join(cache, rel), data,
-                   dict(kind='flip', offset=i + w['offset'], bit=w['bit']))
-    (r, look), = verify_fresh(cache, reqs, o)
+    forked(writer, reqs, o, cache, None, None, True)
+    marker = bytes.fromhex(w['find'])
     plain = uncached([doc], o)
+    last = (None, None, 'marker not found in the stored value')
+    template = cache + '.tpl'
+    os.rename(cache, template)
+    for rel, _ in list_cache_files(template):
+        with open(os.path.join(template, rel), 'rb') as f:
+            data = f.read()
+        if (rel.endswith('.val')) != bool(w['value_file']) or rel == 'cache.db-shm':
+            continue
+        # every occurrence of the identifier in the stored bytes, last one first (in the pickle of a
+        # Specification the last one is the name the type checker compares with)
+        occ = []
+        i = data.find(marker)
+        while i >= 0:
+            occ.append(i)
+            i = data.find(marker, i + 1)
+        for i in reversed(occ):
+            shutil.rmtree(cache, True)
+            shutil.copytree(template, cache)
+            apply_mutation(os.path.join(cache, rel), data, dict(kind='flip', offset=i + w['offset'], bit=w['bit']))
+            (r, look), = verify_fresh(cache, reqs, o)
+            last = (r, plain, look)
+            if r[0] == 'ok' and r != plain:
+                shutil.rmtree(d, True)
+                return last
     shutil.rmtree(d, True)
-    return r, plain, look
+    return last
 
 
 def run_known_findings(ctx, findings):
@@ -1117,15 +1132,15 @@ def run(ctx):
     # 4. histories
     def budget(n):
         # quick tier on a loaded machine: keep inside the time box by shrinking the remaining phases
-        late = ctx.quick and time.time() - ctx.t0 > 75
+        late = ctx.quick and time.time() - ctx.t0 > 60
         return max(4, n // 2) if late else n
     if ctx.quick:
         histories(ctx, budget(8), 24, translated)
     else:
-        histories(ctx, 60, 40, translated)
+        histories(ctx, 40, 36, translated)
     ctx.log('histories done')
     # 5. faults
-    kill_runs(ctx, budget(16) if ctx.quick else 160)
+    kill_runs(ctx, budget(16) if ctx.quick else 96)
     ctx.log('SIGKILL runs done')
     corruption_runs(ctx, 2 if ctx.quick else 8, budget(20) if ctx.quick else 70, findings)
     ctx.log('corruption runs done')
